@@ -163,6 +163,10 @@ func (d *Demand) proveSnap(site *Site, sn *Snap, g *Formula, depth int) *Failure
 	if r.K == FTrue {
 		return nil
 	}
+	if len(d.Roots) == 0 {
+		// local rule: the requirement must be established inside the function
+		return &Failure{Chain: []string{lab}, Cex: cexString(cex), Reason: "not established locally: needs " + r.String() + " from the callers"}
+	}
 	if f := d.proveEntry(site.Fn, r, depth+1); f != nil {
 		return &Failure{Chain: append([]string{lab}, f.Chain...), Cex: f.Cex, Reason: f.Reason}
 	}
